@@ -11,8 +11,20 @@ Definition name := nat.
 
 Inductive loc := Global | Local (lam : nat).
 
+(** What an AST position or a stack slot can hold as a constant.  [LOpaque n] is the n-th constant of the
+    program that the model does not interpret (string, character, flonum, bignum, vector, quoted pair:
+    only pushed, passed around, tested for truth and printed).  [LNode v] is a SEXP_LIT *node* of the AST
+    (eval.c:461 sexp_make_lit) holding the datum v: what [analyze] makes of (quote v) (eval.c:1151-1160)
+    and what simplify.c's constant folding produces; an immediate written in its self-evaluating spelling
+    stays the bare immediate (eval.c:1229-1234).  The optimisation passes test [sexp_litp] separately from
+    "not a pointer", so the two spellings are different inputs for them; the code generator pushes the
+    unwrapped datum ([lit_value], the idiom `sexp_litp(x) ? sexp_lit_value(x) : x`).  A node never occurs
+    as a run-time value. *)
 Inductive lit :=
-| LInt (z : Z) | LBool (b : bool) | LNil | LVoid | LUndef | LSym (s : nat).
+| LInt (z : Z) | LBool (b : bool) | LNil | LVoid | LUndef | LSym (s : nat)
+| LOpaque (n : nat) | LNode (v : lit).
+
+Definition lit_value (l : lit) : lit := match l with LNode v => v | v => v end.
 
 (** opcodes.c:84-114: the primitives that [analyze] inlines as opcode applications.
     [PGt]/[PGe] are the "inverse" entries of LT/LE (arguments pushed in source order). *)
